@@ -543,7 +543,7 @@ class SymInt:
             return _fit(term_of(a, w) << blo, lo, hi)
         c = (alo << blo, alo << bhi, ahi << blo, ahi << bhi)
         lo, hi = min(c), max(c)
-        w = max(iwidth(lo, hi), iwidth(0, bhi), iwidth(alo, ahi), iwidth(blo, bhi))
+        w = max(iwidth(lo, hi), iwidth(0, bhi), iwidth(alo, ahi), _w(b), _w(a))
         if w > MAX_WIDTH:
             raise Unsupported("shift result too wide")
         return _fit(term_of(a, w) << term_of(b, w), lo, hi)
@@ -556,7 +556,7 @@ class SymInt:
             return a
         c = (alo >> blo, alo >> bhi, ahi >> blo, ahi >> bhi)
         lo, hi = min(c), max(c)
-        w = max(iwidth(alo, ahi), iwidth(0, bhi), iwidth(blo, bhi))
+        w = max(iwidth(alo, ahi), iwidth(0, bhi), _w(b), _w(a))
         if w > MAX_WIDTH:
             # amount far beyond the operand: clamp the amount
             wa = iwidth(alo, ahi)
